@@ -226,24 +226,35 @@ class C16(Prop):
 
     @staticmethod
     def _ans(c):
-        """the answers the model is run on: in a repeated set-up a request whose data the first run obtained is served at once
-        (request() returns as soon as the data are available), every other kind is answered as the controller answers NOW"""
+        """the answers the model judges unanswered kinds by (see Model/Setup.v `effective`): in a repeated set-up a request whose data
+        the first run obtained is served at once, every other kind is answered as the controller answers NOW"""
         if c["kind"] != "repeat":
             return c["ans"]
         have = set(model.call("timeline", [c["mixers"], c["first"], 3])[3])
         return [[k, ([1] if k in have else a)] for k, a in c["ans"]]
 
     def model_many(self, cases):
-        res = model.call_many("timeline", [[c["mixers"], self._ans(c), 3] for c in cases])
-        return [[r[0], r[1], r[2], r[3], True] for r in res]
+        rep = [c for c in cases if c["kind"] == "repeat"]
+        one = [c for c in cases if c["kind"] != "repeat"]
+        r_one = iter(model.call_many("timeline", [[c["mixers"], c["ans"], 3] for c in one]))
+        r_rep = iter(model.call_many("timeline_again", [[c["mixers"], c["first"], c["ans"], 3] for c in rep]))
+        out = []
+        for c in cases:
+            r = next(r_rep) if c["kind"] == "repeat" else next(r_one)
+            out.append([r[0], r[1], r[2], r[3], True])
+        return out
 
     def obs(self, c, b):
         unanswered = [k for k, a in self._ans(c) if not a]
         return [sorted(b[0]), b[1], [t for t in b[2] if t[0] in unanswered], sorted(b[3]), b[4]]
 
     def spec_many(self, cases, behaviours):
-        res = model.call_many("P16", [[c["mixers"], self._ans(c), 3, [bytes(b[0]), b[1], b[2], bytes(b[3])]] for c, b in zip(cases, behaviours)])
-        return [bool(r) and b[4] for r, b in zip(res, behaviours)]
+        res = lambda b: [bytes(b[0]), b[1], b[2], bytes(b[3])]
+        one = [(c, b) for c, b in zip(cases, behaviours) if c["kind"] != "repeat"]
+        rep = [(c, b) for c, b in zip(cases, behaviours) if c["kind"] == "repeat"]
+        r_one = iter(model.call_many("P16", [[c["mixers"], c["ans"], 3, res(b)] for c, b in one]))
+        r_rep = iter(model.call_many("P16_again", [[c["mixers"], c["first"], c["ans"], 3, res(b)] for c, b in rep]))
+        return [bool(next(r_rep) if c["kind"] == "repeat" else next(r_one)) and b[4] for c, b in zip(cases, behaviours)]
 
     def nontrivial_key(self, c, mb):
         return repr((c["ans"], c["mixers"])) if any(a != [1] for _, a in c["ans"]) else None
